@@ -94,6 +94,9 @@ class Planner:
         e = rng.weighted([(9, "move_a_b"), (3, "move_b_c"), (3, "dep_sig"), (2, "dep_lifecycle"), (2, "dep_body"),
                           (2, "dep_feature"), (2, "app_sig"), (2, "app_path"), (4, "dep_include"), (3, "app_version"), (5, "app_dep_feature"),
                           (5, "dep_comment"), (5, "dep_outside_src"), (5, "dep_symlinked")])
+        if e in ("dep_outside_src", "dep_symlinked"):
+            # only the blueprints that import every route of simdep reach these components
+            bp = rng.choice(sorted(b for b in self.corpus["blueprints"] if self.corpus["blueprints"][b].get("dep_routes")))
         steps = []
         if rng.chance(1, 2):
             steps.append(_ex(rng, bp, diag=_diag_gen(rng)))
